@@ -4,10 +4,12 @@ package main
 // four cmd mains, go/ssa with instantiated generics, VTA call graph.
 
 import (
+	"crypto/sha1"
 	"fmt"
 	"go/ast"
 	"go/token"
 	"go/types"
+	"io"
 	"os"
 	"path/filepath"
 	"sort"
@@ -53,11 +55,147 @@ func shortPath(p string) string {
 
 // shortName gives the go/ssa name of a function with the module prefix removed:
 // "(*device.state).approve", "device.ApproveOrCompare$1", "cmd/drc.main".
-func shortName(fn *ssa.Function) string {
+// renamedFn: functions of /repo that were renamed since the audit, with the name they are
+// audited under (tables, anchors in the checker).  Filled by matchRenamedFunctions.
+var renamedFn = map[*ssa.Function]string{}
+
+func rawShortName(fn *ssa.Function) string {
 	s := fn.String()
 	s = strings.ReplaceAll(s, modPath+"/pkg/", "")
 	s = strings.ReplaceAll(s, modPath+"/", "")
 	return s
+}
+
+func shortName(fn *ssa.Function) string {
+	if len(renamedFn) > 0 {
+		if s, ok := renamedFn[fn]; ok {
+			return s
+		}
+		root := fn
+		for root.Parent() != nil {
+			root = root.Parent()
+		}
+		if s, ok := renamedFn[root]; ok && root != fn {
+			return s + strings.TrimPrefix(rawShortName(fn), rawShortName(root))
+		}
+	}
+	return rawShortName(fn)
+}
+
+// fnFingerprint: a digest of the body of a top-level function (and its closures) that does
+// not contain the function's own name: instruction kinds, callees, constants, field names.
+func fnFingerprint(fn *ssa.Function) string {
+	h := sha1.New()
+	self := rawShortName(fn)
+	var visit func(f *ssa.Function)
+	visit = func(f *ssa.Function) {
+		fmt.Fprintf(h, "F%d/%d;", len(f.Params), len(f.Blocks))
+		for _, b := range f.Blocks {
+			fmt.Fprintf(h, "B%d>%d;", b.Index, len(b.Succs))
+			for _, in := range b.Instrs {
+				fmt.Fprintf(h, "%T,", in)
+				switch x := in.(type) {
+				case ssa.CallInstruction:
+					if c := x.Common().StaticCallee(); c != nil {
+						root := c
+						for root.Parent() != nil {
+							root = root.Parent()
+						}
+						if n := rawShortName(root); n != self {
+							io.WriteString(h, rawShortName(c))
+						}
+					} else if x.Common().IsInvoke() {
+						io.WriteString(h, x.Common().Method.Name())
+					}
+				case *ssa.FieldAddr:
+					fmt.Fprintf(h, "f%d", x.Field)
+				case *ssa.Field:
+					fmt.Fprintf(h, "f%d", x.Field)
+				}
+				for _, op := range in.Operands(nil) {
+					if op == nil || *op == nil {
+						continue
+					}
+					if c, ok := (*op).(*ssa.Const); ok && c.Value != nil {
+						io.WriteString(h, c.Value.ExactString())
+					}
+				}
+				io.WriteString(h, ";")
+			}
+		}
+		for _, a := range f.AnonFuncs {
+			visit(a)
+		}
+	}
+	visit(fn)
+	return fmt.Sprintf("%x", h.Sum(nil))[:20]
+}
+
+// matchRenamedFunctions: a name of tables/fn_fingerprints.tsv that no function carries any
+// more is given to the one function of the same package with that fingerprint whose own
+// name is not in the table (a pure rename).  Anything else stays unmatched, and the rules
+// that look for the audited name report it as missing.
+func matchRenamedFunctions(p *Prog) {
+	renamedFn = map[*ssa.Function]string{}
+	renamedRaw = map[string]string{}
+	fn := filepath.Join(verifDir(), "tables", "fn_fingerprints.tsv")
+	data, err := os.ReadFile(fn)
+	if err != nil {
+		return
+	}
+	want := map[string]string{}
+	for _, line := range strings.Split(string(data), "\n") {
+		f := strings.Split(line, "\t")
+		if len(f) == 2 && !strings.HasPrefix(line, "#") {
+			want[f[0]] = f[1]
+		}
+	}
+	cur := map[string]*ssa.Function{}
+	for _, f := range p.ModFuncs {
+		if f.Parent() == nil {
+			cur[rawShortName(f)] = f
+		}
+	}
+	var missing []string
+	for n := range want {
+		if cur[n] == nil {
+			missing = append(missing, n)
+		}
+	}
+	if len(missing) == 0 {
+		return
+	}
+	sort.Strings(missing)
+	byFP := map[string][]*ssa.Function{}
+	for n, f := range cur {
+		if _, known := want[n]; known || len(f.Blocks) == 0 {
+			continue
+		}
+		key := pkgOfFunc(f) + "|" + fnFingerprint(f)
+		byFP[key] = append(byFP[key], f)
+	}
+	claimed := map[*ssa.Function]bool{}
+	for _, n := range missing {
+		pk := n
+		pk = strings.TrimLeft(pk, "(*")
+		if i := strings.IndexAny(pk, ".)"); i >= 0 {
+			pk = pk[:i]
+		}
+		c := byFP[pk+"|"+want[n]]
+		if len(c) == 1 && !claimed[c[0]] {
+			claimed[c[0]] = true
+			renamedFn[c[0]] = n
+			renamedRaw[rawShortName(c[0])] = n
+		}
+	}
+	if len(renamedFn) > 0 {
+		// rebuild the name index under the audited names
+		p.Funcs = map[string]*ssa.Function{}
+		for _, f := range p.ModFuncs {
+			p.Funcs[shortName(f)] = f
+		}
+		sort.Slice(p.ModFuncs, func(i, j int) bool { return shortName(p.ModFuncs[i]) < shortName(p.ModFuncs[j]) })
+	}
 }
 
 func isModPkgPath(p string) bool {
@@ -176,6 +314,7 @@ func loadProg(needSSA bool) (*Prog, error) {
 		p.Funcs[shortName(fn)] = fn
 	}
 	sort.Slice(p.ModFuncs, func(i, j int) bool { return shortName(p.ModFuncs[i]) < shortName(p.ModFuncs[j]) })
+	matchRenamedFunctions(p)
 	return p, nil
 }
 
@@ -355,6 +494,17 @@ func declName(pk *packages.Package, fd *ast.FuncDecl) string {
 
 // objFuncName formats a *types.Func like go/ssa does, with short paths.
 func objFuncName(obj *types.Func) string {
+	n := objFuncNameRaw(obj)
+	if a, ok := renamedRaw[n]; ok {
+		return a
+	}
+	return n
+}
+
+// renamedRaw: current name -> audited name of the renamed functions (see matchRenamedFunctions).
+var renamedRaw = map[string]string{}
+
+func objFuncNameRaw(obj *types.Func) string {
 	sig := obj.Type().(*types.Signature)
 	pkg := ""
 	if obj.Pkg() != nil {
